@@ -102,8 +102,24 @@ def early_oracle(log):
     return None
 
 
-for _p in ("C04", "C05", "C07", "C15"):
+def tryfail_oracle(log):
+    """iv_fd_register_try reported failure for a descriptor that is open (sockets and pipes only in the harness): nothing but an interrupted
+    probe can have caused that, and an interruption must not change behaviour"""
+    for l in log.splitlines():
+        if l.startswith("TRY-FAILED-ON-OPEN-FD "):
+            return (f"iv_fd_register_try failed for the open descriptor {l.split()[1]} (the registration probe was interrupted and not retried): "
+                    "the descriptor is left unregistered, its handlers never run")
+    return None
+
+
+def _both(log):
+    return early_oracle(log) or tryfail_oracle(log)
+
+
+for _p in ("C04", "C05"):
     LOG_ORACLES[_p] = early_oracle
+for _p in ("C07", "C15", "C02"):
+    LOG_ORACLES[_p] = _both
 
 
 def failing(r, prop, mon_keys, san_kinds):
